@@ -12,16 +12,20 @@ package store
 //@ func keyInRange
 //@   property C25
 //@   ensures [iff-inRange] result == keyOK(meta, key)
+//@   tag ghost-pure
 //@   modifies nothing
 
 //@ func epochNotMatchError
-//@   ensures [non-nil] result != nil
+//@   ensures [non-nil] result != nil && result.EpochNotMatch != nil
 //@   trusted
+//@   tag ghost-pure
 //@   modifies nothing
 
 //@ func validateRegionEpoch
 //@   property C25
 //@   ensures [nil-iff-equal] (result == nil) <==> (reqEpoch != nil && reqEpoch.ConfVer == meta.Epoch.ConfVersion && reqEpoch.Version == meta.Epoch.Version)
+//@   tag ghost-pure
+//@   modifies nothing
 
 // Every key a request names, per command kind (the oneof getters are the program's own).
 //@ spec func keysOKTo(meta manifest.RegionMeta, keys [][]byte, n int) bool = forall j int :: 0 <= j && j < n && j < len(keys) ==> keyOK(meta, keys[j])
@@ -35,7 +39,9 @@ package store
 //@ func validateRequestKeys
 //@   property X25
 //@   tag thorough-only
+//@   tag ghost-pure
 //@   timeout 900
+//@   modifies nothing
 //@   ensures [all-named-keys-in-range] result == nil && req != nil ==> reqsOKTo(meta, req.Requests, len(req.Requests))
 //@   loop 1 invariant [done-so-far] req != nil && reqsOKTo(meta, req.Requests, rangeindex#1 + 1)
 //@   loop 2 invariant [prewrite] req != nil && reqsOKTo(meta, req.Requests, rangeindex#1) && r != nil && r.CmdType == 3 && mutsOKTo(meta, r.GetPrewrite().GetMutations(), rangeindex#2 + 1)
@@ -52,3 +58,90 @@ package store
 //@   ensures [known-states-only] result && uint8(current) != uint8(next) ==> uint8(current) <= 3 && uint8(next) <= 3
 //@   ensures [no-skip-back-to-new] result && uint8(current) != uint8(next) ==> uint8(next) != 0
 //@   modifies nothing
+
+// C23 (sequential kernel): a command is only served after this store observed itself as
+// the region's raft leader, and a local read is only executed after a successful
+// ReadIndex round (LinearizableRead) followed by a successful wait for that very index.
+// The raft-level guarantee of ReadIndex itself is the trusted base; the ghosts below
+// record what ReadCommand / validateCommand did, in order.
+//@ ghost var leaderSeen Int
+//@ ghost var readIndexOK Int
+//@ ghost var lastReadIdx uint64
+//@ ghost var waitOK Int
+//@ ghost var lastWaitIdx uint64
+//@ ghost var applierCalls Int
+//@ ghost var appliedLeaderSeen Int
+//@ ghost var appliedReadIndexOK Int
+//@ ghost var appliedWaitOK Int
+//@ ghost var appliedIdxMatch bool
+
+//@ func github.com/feichai0017/NoKV/raftstore/peer::(*Peer).Status
+//@   trusted
+//@   ghost leaderSeen = (result.RaftState == 2 ? leaderSeen + 1 : leaderSeen)
+//@   modifies nothing
+//@ func github.com/feichai0017/NoKV/raftstore/peer::(*Peer).ID
+//@   trusted
+//@   tag ghost-pure
+//@   modifies nothing
+//@ func github.com/feichai0017/NoKV/raftstore/peer::(*Peer).LinearizableRead
+//@   trusted
+//@   ghost readIndexOK = (result1 == nil ? readIndexOK + 1 : readIndexOK)
+//@   ghost lastReadIdx = (result1 == nil ? result : lastReadIdx)
+//@   modifies nothing
+//@ func github.com/feichai0017/NoKV/raftstore/peer::(*Peer).WaitApplied
+//@   trusted
+//@   ghost waitOK = (result == nil ? waitOK + 1 : waitOK)
+//@   ghost lastWaitIdx = (result == nil ? index : lastWaitIdx)
+//@   modifies nothing
+// The apply handler installed in Store.commandApplier: reads the state machine. The ghost
+// effect snapshots what had been established when it was invoked.
+//@ func field (Store).commandApplier
+//@   trusted
+//@   ghost applierCalls = applierCalls + 1
+//@   ghost appliedLeaderSeen = leaderSeen
+//@   ghost appliedReadIndexOK = readIndexOK
+//@   ghost appliedWaitOK = waitOK
+//@   ghost appliedIdxMatch = (lastWaitIdx == lastReadIdx)
+//@   modifies heap
+
+//@ func (*Store).RegionMetaByID
+//@   trusted
+//@   tag ghost-pure
+//@   modifies nothing
+//@ func (*regionManager).peer
+//@   trusted
+//@   tag ghost-pure
+//@   modifies nothing
+//@ func notLeaderError
+//@   trusted
+//@   tag ghost-pure
+//@   ensures [non-nil] result != nil && result.NotLeader != nil
+//@   modifies nothing
+
+//@ func isReadOnlyRequest
+//@   trusted
+//@   tag ghost-pure
+//@   modifies nothing
+//@ func trimScanResponse
+//@   trusted
+//@   tag ghost-pure
+//@   modifies heap
+//@ func (*commandPipeline).nextProposalID
+//@   trusted
+//@   tag ghost-pure
+//@   modifies heap
+
+//@ func (*Store).validateCommand
+//@   property C23
+//@   ensures [peer-only-if-leader-observed] result != nil ==> leaderSeen > old(leaderSeen) && result2 == nil && result3 == nil
+//@   ensures [no-peer-means-error-or-region-error] result == nil && result3 == nil ==> result2 != nil && result2.RegionError != nil
+//@   ensures [accepted-means-leader-observed] result2 == nil && result3 == nil ==> result != nil && leaderSeen > old(leaderSeen)
+//@   ensures [ghost-frame] readIndexOK == old(readIndexOK) && waitOK == old(waitOK) && applierCalls == old(applierCalls) && leaderSeen >= old(leaderSeen)
+
+//@ func (*Store).ReadCommand
+//@   property C23
+//@   ensures [apply-only-as-leader] applierCalls > old(applierCalls) ==> appliedLeaderSeen > old(leaderSeen)
+//@   ensures [apply-only-after-read-index] applierCalls > old(applierCalls) ==> appliedReadIndexOK > old(readIndexOK)
+//@   ensures [apply-only-after-wait-applied] applierCalls > old(applierCalls) ==> appliedWaitOK > old(waitOK) && appliedIdxMatch
+//@   ensures [at-most-one-apply] applierCalls <= old(applierCalls) + 1
+//@   ensures [answer-without-apply-is-error] applierCalls == old(applierCalls) && result1 == nil ==> result != nil && result.RegionError != nil
